@@ -524,8 +524,11 @@ def _dev_label(case, dev):
             return "initializer-name-needs-cleanup"
         return f"name={new}"
     _, slot, key, place = dev
-    lab = "nonfinite-const" if _has_nonfinite(key) else "negative-const" if _is_negative(key) else f"const={key}"
-    return lab + ("@init" if place == "init" else "")
+    if _has_nonfinite(key):
+        return "nonfinite-const"          # placement is irrelevant: initializers are exported as Constant nodes
+    if _is_negative(key):
+        return "negative-const"
+    return f"const={key}" + ("@init" if place == "init" else "")
 
 
 def _devs(consts, ren):
@@ -677,7 +680,17 @@ def attribute(case, bits, leaf):
     base_label = _base_feature(c2, b2, l2)
     if not devs or base_label in _STRUCTURAL:
         return optclass, base_label, masked
-    return optclass, "+".join(_dev_label(c2, d) for d in devs), masked
+    labels = []
+    for d in devs:
+        lab = _dev_label(c2, d)
+        if lab not in labels:
+            labels.append(lab)
+    if "names-collide" in labels:
+        # one defect (the clean-up is not injective) whatever the options and the other deviation are
+        return "any", "names-collide", masked
+    if "initializer-name-needs-cleanup" in labels:
+        return optclass, "initializer-name-needs-cleanup", masked
+    return optclass, "+".join(labels), masked
 
 
 # =========================================================================================================
